@@ -294,6 +294,46 @@ class Impl:
         except Exception:
             pass
 
+    def _listed(self, rows):
+        """the rows in the order os.listdir() lists them now (ppid_map() fills its dict in that order and the order of
+        children()'s result follows it); None when the directory does not show exactly these PIDs"""
+        try:
+            order = [int(x) for x in os.listdir(self.fp.root) if x.isdigit()]
+        except OSError:
+            return None
+        by = {r[0]: r for r in rows}
+        if sorted(order) != sorted(by):
+            return None
+        return [list(by[q]) for q in order]
+
+    def plain_call(self, p, call):
+        """one call of a history on a constant table → its observable (same canonical form as the final call;
+        children: + the unsorted PID order)"""
+        def on_alarm(*a):
+            raise _Budget()
+        old = signal.signal(signal.SIGPROF, on_alarm)
+        signal.setitimer(signal.ITIMER_PROF, 20.0)
+        try:
+            if call == "is_running":
+                return bool(p.is_running())
+            if call in ("children", "children_rec"):
+                ret = p.children(recursive=(call == "children_rec"))
+                return {"kind": "ok", "procs": sorted([c.pid, self.to_ticks(c.create_time())] for c in ret),
+                        "order": [c.pid for c in ret]}
+            if call == "parent":
+                r = p.parent()
+                return {"kind": "ok", "parent": None if r is None else [r.pid, self.to_ticks(r.create_time())]}
+            if call == "parents":
+                return {"kind": "ok", "chain": [[q.pid, self.to_ticks(q.create_time())] for q in p.parents()]}
+            raise ValueError(call)
+        except _Budget:
+            return {"kind": "diverged"}
+        except Exception as e:
+            return self.exc(e)
+        finally:
+            signal.setitimer(signal.ITIMER_PROF, 0)
+            signal.signal(signal.SIGPROF, old)
+
     # ---- one case
     def run_case(self, case):
         """→ (observable, running, extra)"""
@@ -335,6 +375,13 @@ class Impl:
                 running = bool(p.is_running())
             except Exception as e:
                 running = self.exc(e)
+        if case.get("pre"):
+            # EARLIER CALLS ON THE SAME OBJECT, each on its own (constant) table
+            extra["pre_obs"], extra["pre_listed"] = [], []
+            for pcall, prows in case["pre"]:
+                self.set_table(prows)
+                extra["pre_listed"].append(self._listed(prows))
+                extra["pre_obs"].append(self.plain_call(p, pcall))
         self.set_table(case["t0"])
         if case.get("pids_call") == "t0":
             self._pids()
@@ -411,16 +458,13 @@ class Impl:
                 return r
             ps._ppid_map = snap
 
-        if dyn and call in ("children", "children_rec"):
+        if call in ("children", "children_rec"):
             # ppid_map() fills its dict in os.listdir() order and the walk follows it: which of two unreadable
-            # processes is met first (AccessDenied(pid)) depends on it, so the model gets the rows in that order
-            try:
-                order = [int(x) for x in os.listdir(self.fp.root) if x.isdigit()]
-                by = {r[0]: r for r in case["t0"]}
-                if sorted(order) == sorted(by):
-                    extra["t0_listed"] = [list(by[q]) for q in order]
-            except OSError:
-                pass
+            # processes is met first (AccessDenied(pid)), and the ORDER of the result, depend on it, so the model gets
+            # the rows in that order
+            listed = self._listed(case["t0"])
+            if listed is not None:
+                extra["t0_listed"] = listed
 
         def on_alarm(*a):
             raise _Budget()
@@ -442,6 +486,7 @@ class Impl:
                 self.counter[1] = None
                 # every returned object as [pid, its create_time in ticks]: it must be the incarnation listed NOW
                 obs = {"kind": "ok", "procs": sorted([c.pid, self.to_ticks(c.create_time())] for c in ret)}
+                extra["order"] = [c.pid for c in ret]
                 older = []
                 for c in ret:
                     try:
@@ -614,12 +659,22 @@ def calc_lowest(case):
         lowest = min_pid(case["iter"])
     if case.get("pids_call") == "mk" and case["mk"]:
         lowest = min_pid(case["mk"])
-    elif case.get("pids_call") == "t0" and case["t0"]:
+    for pcall, prows in case.get("pre") or []:
+        # parent() (also the first one inside parents()) calls pids() only while _LOWEST_PID is unset
+        if pcall in ("parent", "parents") and lowest is None and prows:
+            lowest = min_pid(prows)
+    if case.get("pids_call") == "t0" and case["t0"]:
         lowest = min_pid(case["t0"])
     return lowest
 
 
-def mk_case(call, pid, t0, mk=None, mid=None, t1=None, pids_call=None, family="", events=None, it=None):
+def calc_lowest0(case):
+    """_LOWEST_PID before the earlier calls of a history (`pre`)"""
+    c = dict(case, pre=None, pids_call=(case.get("pids_call") if case.get("pids_call") == "mk" else None))
+    return calc_lowest(c)
+
+
+def mk_case(call, pid, t0, mk=None, mid=None, t1=None, pids_call=None, family="", events=None, it=None, pre=None):
     mk = t0 if mk is None else mk
     c = {"op": "tree", "call": call, "pid": pid, "mk": mk, "mid": mid, "lowest": None, "t0": t0, "t1": t1,
          "pids_call": pids_call, "family": family}
@@ -627,6 +682,9 @@ def mk_case(call, pid, t0, mk=None, mid=None, t1=None, pids_call=None, family=""
         c["events"] = events
     if it is not None:
         c["iter"] = it
+    if pre:
+        c["pre"] = [[pc, [list(r) for r in pt]] for pc, pt in pre]
+        c["lowest0"] = calc_lowest0(c)
     c["lowest"] = calc_lowest(c)
     return c
 
@@ -703,6 +761,50 @@ def history_variants(rng, rows, pid, family):
         old = older_table(rng, rows, {pid})
         out.append((old, None, rows, None, pc, "iter_object_then_recycle", old))
         out.append((rows, None, rows, None, pc, "iter_same_table", [list(x) for x in rows]))
+    elif family == "seq":
+        # CALL SEQUENCES on one object: 1–3 earlier calls, each on its own table, then the call proper. Between the
+        # calls the caller is re-parented, other processes exit / are recycled / appear; once the caller's incarnation
+        # is gone from a table it never comes back (a (PID, start time) pair does not return).
+        lowrow = [1, 0, 0] if all(x[0] != 1 for x in rows) and rng.random() < 0.7 else None   # an init that stays
+        base = rows + ([lowrow] if lowrow else [])
+
+        def mutate(tbl, alive):
+            out = []
+            for x in tbl:
+                if x[0] == pid:
+                    if alive:
+                        y = list(x)
+                        if rng.random() < 0.5:
+                            y[1] = rng.choice([q[0] for q in tbl] + [0, 1])        # re-parented (start time stays)
+                        out.append(y)
+                    continue
+                if lowrow and x[0] == 1:
+                    out.append(list(x))
+                    continue
+                z = rng.random()
+                if z < 0.15:
+                    continue                                                        # exits
+                if z < 0.3:
+                    out.append([x[0], rng.choice([q[0] for q in tbl] + [0]), max(0, x[2] + rng.choice([-2, -1, 1, 3]))])
+                else:
+                    out.append(list(x))
+            return out
+        k = rng.randrange(1, 4)
+        dies_at = rng.choice([None, None, None, 0, 1, 2, 3])         # index of the first table without the incarnation
+        tabs, alive, cur = [], True, base
+        for i in range(k + 1):
+            if dies_at is not None and i >= dies_at:
+                alive = False
+            cur = mutate(cur, alive) if i > 0 or rng.random() < 0.5 else [list(x) for x in cur]
+            if not alive:
+                cur = [x for x in cur if x[0] != pid]
+                if rng.random() < 0.5:
+                    cur = cur + [[pid, rng.choice([q[0] for q in cur] + [0]), me[2] + rng.choice([1, 2]) if me[2] < 2 else me[2] + rng.choice([-1, 1, 2])]]
+            if not cur:
+                cur = [[1, 0, 0]]
+            tabs.append(cur)
+        pcalls = [rng.choice(["parent", "parent", "parents", "children", "children_rec", "is_running"]) for _ in range(k)]
+        out.append((base, None, tabs[-1], None, None, "seq", None, [[pc, t] for pc, t in zip(pcalls, tabs[:-1])]))
     elif family == "stale_lowest":
         low = min(r0[0] for r0 in rows)
         mk = rows + [[0 if low > 0 else 61, 0, 0]] if low > 0 else rows
@@ -719,7 +821,7 @@ def history_variants(rng, rows, pid, family):
 
 TABLE_FAMILIES = ["forest", "cycle", "selfloop", "unlisted", "random", "large", "cycle", "random"]
 HIST_FAMILIES = ["plain", "vanish_during", "vanish", "recycled_caller", "gone_caller", "gone_then_recycled",
-                 "stale_lowest", "iter_then_recycle", "vanish", "iter_then_recycle"]
+                 "stale_lowest", "iter_then_recycle", "vanish", "iter_then_recycle", "seq", "seq"]
 
 
 def table_features(case):
@@ -758,6 +860,8 @@ def table_features(case):
             f.add("pmap_holds_previous_owner")
     if case["mk"] != case["t0"] or case.get("mid") is not None:
         f.add("history")
+    if case.get("pre"):
+        f.add("call_sequence")
     if len(rows) > 12:
         f.add("large")
     return f
@@ -803,6 +907,58 @@ def judge(case, obs, running, extra, m, res, source, record=True):
                          note="is_running() differs from the model")
         return "model"
     verdict = None
+    # ---- earlier calls on the same object: each one is judged like a call of its own
+    if case.get("pre"):
+        pobs = extra.get("pre_obs") or []
+        if len(pobs) != len(m.get("pre") or []):
+            if record:
+                res.disagree("model", inp, {"pre_obs": pobs}, m.get("pre"), None, note="harness: earlier calls were not all run")
+            return "model"
+        low_stale = False
+        low = case.get("lowest0")
+        for i, ((pcall, prows), po, pm) in enumerate(zip(case["pre"], pobs, m["pre"])):
+            tag = "call %d of the history (%s)" % (i + 1, pcall)
+            if pcall == "is_running":
+                if po != pm["model"]:
+                    if record:
+                        res.disagree("model", inp, {"is_running": po}, pm["model"], None, note=tag + ": is_running() differs from the model")
+                    return "model"
+                continue
+            po = dict(po)
+            order = po.pop("order", None)
+            p_applies = bool(prows)
+            if pcall in ("parent", "parents"):
+                if low is None:
+                    low = min_pid(prows)
+                p_applies = p_applies and low == min_pid(prows)
+            if p_applies:
+                v = spec_verdict(po, pm)
+                if v == "spec":
+                    if record:
+                        res.disagree("spec", inp, po, pm["model"], pm["spec"], note=tag + ": implementation differs from the specification")
+                    return "spec"
+                if v is not None:
+                    if record:
+                        res.known_seen[v] = res.known_seen.get(v, 0) + 1
+                        res.disagree("spec", inp, po, pm["model"], pm["spec"], finding=v,
+                                     note=tag + ": implementation differs from the literal specification (known finding %s)" % v)
+                    verdict = "spec:" + v
+            if po != pm["model"]:
+                if record:
+                    res.disagree("model", inp, po, pm["model"], pm["spec"], note=tag + ": implementation differs from the Lean model")
+                return "model"
+            if order is not None and pm.get("order") is not None and order != pm["order"]:
+                if record:
+                    res.disagree("model", inp, {"order": order}, {"order": pm["order"]}, None,
+                                 note=tag + ": the ORDER of the returned list differs from the model's (same set)")
+                return "model"
+        if case.get("pids_call") != "t0" and m.get("lowest_after_pre") != extra.get("lowest"):
+            if record:
+                res.disagree("model", inp, {"_LOWEST_PID": extra.get("lowest")}, {"lowest": m.get("lowest_after_pre")}, None,
+                             note="psutil._LOWEST_PID after the earlier calls differs from the model's")
+            return "model"
+        if record:
+            res.count("seq:calls_before=%d" % len(pobs))
     if spec_applies:
         if record:
             for fid in regions_of(m):
@@ -824,6 +980,15 @@ def judge(case, obs, running, extra, m, res, source, record=True):
         if record:
             res.disagree("model", inp, obs, mo, sp, note="%s(): implementation differs from the Lean model" % call)
         return "model"
+    # the ORDER of children(): not specified (a set); as a characterisation it is the model's (C05_children_order_flat)
+    if obs.get("kind") == "ok" and extra.get("order") is not None and m.get("order") is not None:
+        if record:
+            res.count("order_compared:" + call)
+        if extra["order"] != m["order"]:
+            if record:
+                res.disagree("model", inp, {"order": extra["order"]}, {"order": m["order"]}, sp,
+                             note="%s(): the ORDER of the returned list differs from the model's (same set)" % call)
+            return "model"
     return verdict
 
 
@@ -876,6 +1041,11 @@ def judge_dyn(case, obs, extra, m, res, source, record=True):
             verdict = "spec:" + v
     if obs != mo:
         return dis("model", obs, "%s(): implementation differs from the Lean model (richer world)" % case["call"])
+    if obs.get("kind") == "ok" and extra.get("order") is not None and m.get("order") is not None:
+        if record:
+            res.count("order_compared:" + case["call"])
+        if extra["order"] != m["order"]:
+            return dis("model", {"order": extra["order"]}, "%s(): the ORDER of the returned list differs from the model's (same set; richer world)" % case["call"])
     return verdict
 
 
@@ -1102,7 +1272,11 @@ def strip(case):
         if case.get("statmemo") is not None:
             d["statmemo"] = case["statmemo"]
         return d
-    return {k: case[k] for k in ("op", "call", "pid", "mk", "mid", "lowest", "t0", "t1")}
+    d = {k: case[k] for k in ("op", "call", "pid", "mk", "mid", "lowest", "t0", "t1")}
+    if case.get("pre"):
+        d["pre"] = case["pre"]
+        d["lowest0"] = case.get("lowest0")
+    return d
 
 
 def run_cases(ctx, impl, cases, res, source, record=True):
@@ -1116,6 +1290,8 @@ def run_cases(ctx, impl, cases, res, source, record=True):
             c["t1"] = extra["t1"]          # events: the look-up world is known only after the run
         if "t0_listed" in extra:
             c["t0"] = extra["t0_listed"]   # same rows, in the order pids() listed them
+        if c.get("pre") and extra.get("pre_listed"):
+            c["pre"] = [[pc, (pl if pl is not None else pt)] for (pc, pt), pl in zip(c["pre"], extra["pre_listed"])]
         if c.get("op") == "dyn":
             c["steps"] = extra.get("steps")
             c["lowest"] = extra.get("lowest")      # what the module holds (its computation is checked by the plain cases)
@@ -1260,6 +1436,15 @@ def correspond(ctx, res):
                                  family="corpus:recycled-lowest-pid"))
             for pid in (2, 7):
                 cases.append(mk_case(call, pid, [[2, 3, 5], [3, 0, 1], [7, 2, 9]], family="corpus:lowest-pid-has-parent"))
+        # call sequences on one object (Props: C05_seq_*): the caller is re-parented between two parent() calls (a per-object
+        # ppid cache would answer the old link); the object sees its incarnation gone, later its PID is recycled
+        ta = [[1, 0, 1], [4, 1, 2], [5, 1, 10], [6, 5, 20]]
+        tb = [[1, 0, 1], [4, 1, 2], [5, 4, 10], [6, 5, 20]]
+        for call in CALLS:
+            cases.append(mk_case(call, 5, tb, mk=ta, pre=[["parent", ta]], family="corpus:seq-reparented"))
+            cases.append(mk_case(call, 5, tb, mk=ta, pre=[["parents", ta], ["children_rec", ta], ["is_running", tb]], family="corpus:seq-reparented"))
+            cases.append(mk_case(call, 5, [[1, 0, 1], [4, 1, 2], [5, 4, 15], [6, 5, 20]], mk=ta,
+                                 pre=[["children", ta], ["parent", [[1, 0, 1], [4, 1, 2], [6, 5, 20]]]], family="corpus:seq-gone-then-recycled"))
         # process_iter() saw other owners of PIDs 20/30 (one older, one younger than the caller) before
         # the caller forked its workers into those PIDs
         seen_by_iter = [[1, 0, 1], [10, 1, 100], [20, 1, 50], [30, 1, 150]]
@@ -1293,6 +1478,7 @@ def correspond(ctx, res):
                 for hv in history_variants(ctx.rng, rows, pid, hf):
                     (mk, mid, t0, t1, pc, tag) = hv[:6]
                     it = hv[6] if len(hv) > 6 else None
+                    pre = hv[7] if len(hv) > 7 else None
                     for call in CALLS:
                         if t1 is not None and call in ("parent", "parents"):
                             continue
@@ -1302,7 +1488,7 @@ def correspond(ctx, res):
                         else:
                             t1_ = t1
                         cases.append(mk_case(call, pid, t0, mk=mk, mid=mid, t1=t1_, pids_call=pc,
-                                             family=tf + "/" + tag, events=evs, it=it))
+                                             family=tf + "/" + tag, events=evs, it=it, pre=pre))
                         tags.append(tf + "/" + tag)
         n_rand = len(cases)
         # ---- exhaustive small tables
@@ -1407,7 +1593,7 @@ def correspond(ctx, res):
                 for f in feats:
                     res.count("feature:" + f)
                 res.count("table_size:%s" % ("1-3" if len(c["t0"]) <= 3 else "4-8" if len(c["t0"]) <= 8 else "9-40"))
-                res.case((c["call"], c["pid"], c["mk"], c["mid"], c["t0"], c["t1"], c["lowest"], c.get("events"), c.get("iter"), c.get("oneshot"), c.get("statmemo")), nontrivial=bool(feats),
+                res.case((c["call"], c["pid"], c["mk"], c["mid"], c["t0"], c["t1"], c["lowest"], c.get("events"), c.get("iter"), c.get("oneshot"), c.get("statmemo"), c.get("pre")), nontrivial=bool(feats),
                          sample={"family": fam, "case": strip(c)} if (a + j) in (0, 1, 30, 41, 77) else None)
         # ---- as_dict() is not a way to reach the tree methods (if it becomes one, it needs its own family)
         impl.set_table([[1, 0, 1], [4, 1, 2]])
@@ -1488,6 +1674,9 @@ def _drop(case, pids):
     for k in ("mk", "mid", "t0", "t1", "statmemo"):
         if k in case:
             c[k] = f(case[k])
+    if case.get("pre"):
+        c["pre"] = [[pc, f(pt)] for pc, pt in case["pre"]]
+        c["lowest0"] = calc_lowest0(c)
     if case.get("iter") is not None:
         c["iter"] = [r for r in case["iter"] if r[0] not in pids]
     if case.get("events"):
@@ -1503,7 +1692,8 @@ def shrink(ctx, d):
         return d
     impl = Impl(ctx)
     try:
-        allp = sorted({r[0] for k in ("mk", "mid", "t0", "t1", "iter", "statmemo") if case.get(k) for r in case[k]} - {case["pid"]})
+        allp = sorted(({r[0] for k in ("mk", "mid", "t0", "t1", "iter", "statmemo") if case.get(k) for r in case[k]}
+                       | {r[0] for _, pt in case.get("pre") or [] for r in pt}) - {case["pid"]})
         want = _verdict(ctx, impl, case)
         if want is None or not want.startswith("spec"):
             return d
